@@ -177,6 +177,16 @@ func runC16(c *ev.Ctx) {
 			files = append(files, f)
 		}
 	}
+	{ // one well-formed still whose trailing EXIF chunk is one byte above the 100 MiB metadata limit (layout of Encode's own output)
+		o := webp.DefaultOptions()
+		o.Lossless = true
+		small, _ := encode(img.Gen(r, "photo", "opaque", 8, 8), o)
+		big := make([]byte, 100*1024*1024+1)
+		for i := 0; i < len(big); i += 4097 {
+			big[i] = byte(i >> 9)
+		}
+		files = append(files, c16File{Name: "hand/metadata-above-limit-after-image", Data: riffWrap(vp8xChunk(0x18, 8, 8), chunk("VP8L", riffChunks(small)["VP8L"]), chunk("EXIF", big))})
+	}
 	var cases []ev.Case
 	for i, f := range files {
 		cases = append(cases, ev.Case{Idx: i, Desc: fmt.Sprintf("%s len=%d", f.Name, len(f.Data)), Data: f})
